@@ -603,4 +603,14 @@ def build (w : World) (o : Opts) (roots : List Spec) (imports : List (Spec × Li
     | _ => st) st
   runLoop w o fuel st
 
+/-- `handle_provided_imports`: configured imports are type imports — a graph that does not include
+types ignores them (repair of F15: it neither loads their targets nor records them) -/
+def effImports (o : Opts) (imports : List (Spec × List Dep)) : List (Spec × List Dep) :=
+  if o.kind.includeTypes then imports else []
+
+/-- `ModuleGraph::build` as callers see it -/
+def buildGraph (w : World) (o : Opts) (roots : List Spec) (imports : List (Spec × List Dep)) (fuel : Nat) :
+    Option St :=
+  build w o roots (effImports o imports) fuel
+
 end DG.Build
